@@ -420,6 +420,11 @@ class Terms(object):
                     parts.append(x)
             if any(p[0] == "c" and isinstance(p[1], (bytes, str)) for p in parts) or a[0] == "CONCAT" or b[0] == "CONCAT":
                 return self.concat(parts)
+        if op in ("*", "+", "-") and ((a[0] == "ite" and b[0] == "c") or (b[0] == "ite" and a[0] == "c")):
+            # (x if c else y) * k  ==  x * k if c else y * k
+            if a[0] == "ite":
+                return ("ite", a[1], self.binop(op, a[2], b), self.binop(op, a[3], b))
+            return ("ite", b[1], self.binop(op, a, b[2]), self.binop(op, a, b[3]))
         if op in _COMM:
             a, b = sorted([a, b], key=crepr)
         return ("op", op, a, b)
@@ -582,6 +587,16 @@ class Terms(object):
                     ext = "%s.%s" % (r[1].name, r[2])
                 elif f.id in func.mod.assigns:
                     ext = "%s.%s" % (func.mod.name, f.id)
+        if ext in EXT_SIGS and kws:
+            # keyword arguments of well-known library functions in positional order
+            sig = EXT_SIGS[ext]
+            kw = dict(kws)
+            args = list(args)
+            while len(args) < len(sig) and sig[len(args)] in kw:
+                args.append(kw.pop(sig[len(args)]))
+            kws = tuple(sorted(kw.items()))
+        if ext == "builtins.pow" and len(args) == 3 and not kws and args[1] == C(2):
+            return self.binop("%", self.binop("*", args[0], args[0]) if args[0][0] != "c" else C(args[0][1] ** 2), args[2])
         if ext == "builtins.len" and len(args) == 1:
             a = args[0]
             if a[0] == "c":
@@ -810,6 +825,18 @@ def lin_sub(a, b):
     for k, v in y.items():
         out[k] = out.get(k, 0) - v
     return {k: v for k, v in out.items() if v}, cx - cy
+
+
+EXT_SIGS = {
+    "asyncio.open_connection": ["host", "port"],
+    "socket.create_connection": ["address", "timeout", "source_address"],
+    "select.select": ["rlist", "wlist", "xlist", "timeout"],
+    "rsa.sign": ["message", "priv_key", "hash_method"],
+    "rsa.pkcs1.sign": ["message", "priv_key", "hash_method"],
+    "cryptography.hazmat.primitives.serialization.load_pem_private_key": ["data", "password", "backend"],
+    "struct.unpack": ["format", "buffer"],
+    "base64.b64encode": ["s", "altchars"],
+}
 
 
 def crepr(t):
